@@ -22,6 +22,9 @@ def Sched.chainRest : Nat → List Bool → List Bool
   | 0, s => s
   | k + 1, s => if Sched.ok s then Sched.chainRest k (Sched.rest s) else Sched.rest s
 
+theorem Mem.free_libc (m : Mem) : m.free.libc = m.libc := by unfold Mem.free; split <;> rfl
+theorem Mem.alloc_libc (m : Mem) : m.alloc.2.libc = m.libc := by unfold Mem.alloc; split <;> rfl
+
 theorem Mem.alloc_fst (m : Mem) : m.alloc.1 = Sched.ok m.sched := by
   unfold Mem.alloc; split <;> simp_all [Sched.ok]
 theorem Mem.alloc_sched (m : Mem) : m.alloc.2.sched = Sched.rest m.sched := by
